@@ -419,10 +419,8 @@ func Reference(cwd string, inv *Inv, stdin []byte) *Expect {
 		if err != nil && !(c.links && isLink) {
 			return exp.nj("dangling-symlink-input")
 		}
-		base := filepath.Base(p)
-		if len(base) > 1 && base[0] == '.' && base != ".." {
-			return exp.nj("explicit-hidden-input") // documentation silent
-		}
+		// a hidden file the command line names is an input like any other: -a ("including hidden files") governs what a
+		// directory walk picks up, not what the user names; its destination keeps its name (mirror of the input tree)
 		switch {
 		case c.links && isLink:
 			if !inv.Sync {
